@@ -2,15 +2,15 @@
 from specs import ERR
 _srcs = ["src/lib/comp/comp.c", "src/lib/comp/zstd/zstd.c", "src/lib/comp/nocomp/nocomp.c", "src/lib/hash/hash.c", "src/lib/io.c", "src/lib/error.c", "src/lib/zck.c",
          "src/lib/index/index_read.c", "src/lib/index/index_create.c", "src/lib/index/index_common.c", "src/lib/header.c", "src/lib/buzhash/buzhash.c"]
-_rb = dict(ERR, **{"src/lib/hash/hash.c": ["get_digest_string", "validate_header", "validate_current_chunk", "validate_file"]})
-_m = ["compint_spec.c", "log_err.c", "files.c", "hash_acc.c", "fmt.c", "digeststr.c", "keyeq.c", "zstd_stub.c", "mem.c", "realloc.c"]
+_rb = dict(ERR, **{"src/lib/hash/hash.c": ["get_digest_string", "validate_header", "validate_current_chunk", "validate_file"], "src/lib/zck.c": ["zmalloc", "zrealloc"]})
+_m = ["compint_spec.c", "log_err.c", "files.c", "hash_acc.c", "fmt.c", "digeststr.c", "keyeq.c", "zstd_stub.c", "mem.c", "ringalloc.c"]
 Z, N = "ZCK_COMP_ZSTD", "ZCK_COMP_NONE"
 def W(name, comp, L, segs, ends, rs, tfd=5, unc=0, what=""):
     s = list(segs) + [0] * (4 - len(segs)); e = list(ends) + [0] * (4 - len(ends))
     d = ["-DFCAP=160", "-DIO_MAX=130", "-DHMAX=130", "-DMEM_MAX=130", "-DRA_MAX=130", "-DMEMSET_MAX=200", "-DV_READ_LOOP", "-DZS_MAX=8", "-DV_UTHASH_MODEL", "-DCOMP=%s" % comp, "-DL=%d" % L, "-DRS=%d" % rs, "-DTFD=%d" % tfd, "-DUNC=%d" % unc]
     d += ["-DS%d=%d" % (k + 1, x) for k, x in enumerate(s)] + ["-DE%d=%d" % (k + 1, x) for k, x in enumerate(e)]
     return dict(file="C01q.c", name="h01q-" + name, function="h01q", repo_srcs=_srcs, remove_bodies=_rb, models=_m, defines=d, unwind=202,
-                unwindset=["comp_read.0:16"], what=what or name, timeout=900, mem_gb=12,
+                unwindset=["comp_read.0:16"], cbmc_extra=["--max-field-sensitivity-array-size", "256"], what=what or name, timeout=900, mem_gb=12,
                 functions=["zck_init_write", "zck_write", "zck_end_chunk", "zck_close", "header_create", "index_create", "write_header", "chunks_from_temp", "zck_init_read", "zck_read", "comp_read"],
                 bounds="%s, content %d symbolic bytes, write calls %s, end-chunk flags %s, read size %d, temp descriptor %d, uncompressed-source flag %d" % (comp, L, segs, ends, rs, tfd, unc))
 SPEC = {
